@@ -334,7 +334,7 @@ class _History:
         if fresh_input:
             args += list(sc.get("sideload_cli", []))
         if sc.get("sideload") and fresh_input:
-            args += ["--sideload", os.path.join(work, "sideload.json")]
+            args += ["--sideload", P.write_sideload(work, sc["sideload"])]
         inv = {"args": args, "salt": step.get("salt", 0), "hits": sc["hits"], "domain_hits": sc["domain_hits"],
                "domain_lengths": sc["domain_lengths"]}
         if fresh_input:
@@ -366,8 +366,7 @@ class _History:
             infile = os.path.join(work, "input.gbk")
             P.write_genbank(infile, sc["records"])
             if sc.get("sideload"):
-                with open(os.path.join(work, "sideload.json"), "w", encoding="utf-8") as handle:
-                    json.dump(sc["sideload"], handle)
+                P.write_sideload(work, sc["sideload"])
             steps = sc["steps"]
             first = self.invocation(work, outdir, steps[0], infile)
             self.trace.append(["P0", first["status"], steps[0]["options"]])
